@@ -22,8 +22,23 @@ if [ "$PROP" = "C20" ]; then
   exec "$VERIF_DIR/tools/run_c20.sh" "$MODE" "$ARG"
 fi
 
+# C05 also covers the optional serde feature (deserializing is an operation like any other):
+# that part runs in the separate serde-enabled crate.
+serde_part() { # mode [file]
+  local HS="$VERIF_DIR/harness-serde" L="$VERIF_DIR/work/build-C05-serde.log"
+  ( cd "$HS" && flock "$VERIF_DIR/work/.build20.lock" cargo build --release ) >"$L" 2>&1 || { echo "INCONCLUSIVE: serdechk does not build against /repo's current tree (see $L)"; tail -n 25 "$L"; exit 2; }
+  if [ "$1" = "--replay" ]; then timeout 300 "$HS/target/release/serdechk" C05 --replay "$2"; else VERIF_EVIDENCE_DIR="$VERIF_DIR/work" timeout 3600 "$HS/target/release/serdechk" C05 "$1"; fi
+  local rc=$?
+  if [ $rc -eq 124 ]; then echo "INCONCLUSIVE: watchdog expired (serde part)"; exit 2; fi
+  if [ $rc -gt 2 ]; then echo "INCONCLUSIVE: serdechk ended abnormally (status $rc)"; exit 2; fi
+  return $rc
+}
+
 build --release
 REL="$H/target/release/runner"
+if [ "$MODE" = "--replay" ] && [ "$PROP" = "C05" ] && head -n 1 "$ARG" 2>/dev/null | grep -q "^serdecase"; then
+  serde_part --replay "$ARG"; exit $?
+fi
 if [ "$MODE" = "--replay" ]; then
   timeout 600 "$REL" "$PROP" --replay "$ARG"; rc=$?
   if [ $rc -eq 0 ] && [ $DEV -eq 1 ]; then build ""; timeout 600 "$H/target/debug/runner" "$PROP" --replay "$ARG"; rc=$?; fi
@@ -47,11 +62,17 @@ run() { # binary, extra env...
 }
 
 AUX=""
+if [ "$PROP" = "C05" ]; then
+  rm -f "$VERIF_DIR/work/C05.serde.json"
+  serde_part "$MODE"; rc=$?
+  [ $rc -ne 0 ] && exit $rc
+  AUX="$VERIF_DIR/work/C05.serde.json"
+fi
 if [ $DEV -eq 1 ]; then
   build ""
   run "$H/target/debug/runner" VERIF_EVIDENCE_SUFFIX=.dev VERIF_EVIDENCE_DIR="$VERIF_DIR/work"; rc=$?
   [ $rc -ne 0 ] && exit $rc
-  AUX="$VERIF_DIR/work/$PROP.dev.json"
+  AUX="${AUX:+$AUX:}$VERIF_DIR/work/$PROP.dev.json"
 fi
 run "$REL" VERIF_AUX_EVIDENCE="$AUX"; rc=$?
 [ $rc -ne 0 ] && exit $rc
